@@ -138,3 +138,98 @@ Theorem C09_generated_readline_is_model :
     = inj_out (readline fuel block size (St b t f)).
 Proof. exact gen_cached_readline_eq. Qed.
 Print Assumptions C09_generated_readline_is_model.
+
+(* ---- translator tie: how the reader is made and handed out.  The
+   definitions of gen/ReqInputGen.v are regenerated on every check run by
+   harness/py2v_reqinput.py from the current poorwsgi/request.py
+   (CachedInput.__init__; Request.input, data, read, __read, read_chunk) as
+   programs over lib/PyReqInput.v (attribute stores of self, method calls on
+   the file object as PCall nodes). *)
+Require Import PW.model.QueryForm.
+Require Import PW.lib.PyReqInput PW.gen.ReqInputGen PW.proofs.ReqInputGenEq.
+
+(* CachedInput(file, n, block, timeout) starts in the model's initial state
+   [init body n shorts] (empty buffer, todo = the second argument), with
+   block_size = the third and timeout = the fourth argument, touching no
+   other attribute; the defaults are 32768 and 10.0 *)
+Theorem C09_generated_cached_init_is_model :
+  forall o file body n shorts block timeout,
+    exists o',
+      gen_cached_init o file (RInt n) (RInt block) timeout = PRet RNone o' /\
+      reader_state o' (CachedInput.Stream body shorts)
+        = Some (CachedInput.init body n shorts, block) /\
+      attr o' "_CachedInput__file" = file /\
+      attr o' "_CachedInput__timeout" = timeout /\
+      (forall name, ~ In name cached_attrs -> o' name = o name) /\
+      gen_cached_init_defaults = [(3, RInt 32768); (4, RRat 10 1)].
+Proof. exact gen_cached_init_model. Qed.
+Print Assumptions C09_generated_cached_init_is_model.
+
+(* Request.input hands out the BytesIO when the body was buffered, else a
+   CachedInput(wsgi.input, Content-Length, cached_size, read_timeout) when
+   cached_size is non-zero (the [RCached (clen c)] of the read plan), else
+   the raw stream; the reader is created once and later calls return it *)
+Theorem C09_generated_request_input_is_model :
+  forall c raw bio tmo o,
+    req_state c raw bio tmo o ->
+    let v := input_choice c raw bio tmo in
+    let o' := input_store c raw bio tmo o in
+    gen_request_input o = PRet v o' /\ gen_request_input o' = PRet v o'.
+Proof. exact gen_request_input_eq. Qed.
+Print Assumptions C09_generated_request_input_is_model.
+
+(* Request.read(length): b'' without a call when no body is expected; one
+   read(Content-Length) for length outside (-1, Content-Length) -- the
+   [RRead (clen c)] of the read plan; inside it self.read becomes __read,
+   which is file.read(length) *)
+Theorem C09_generated_request_read_is_model :
+  forall c o length,
+    attr o "_Request__content_length" = RInt (clen c) ->
+    env_state c o ->
+    o "_Request__read" = None ->
+    gen_request_read o (RInt length) = model_read c o length /\
+    (gen_request_read_defaults = [(1, RInt (-1))] /\
+     gen_request_read o (RInt (-1))
+     = if body_expected c
+       then PCall (attr o "_Request__file") "read" [RInt (clen c)] [] o
+                  (fun t => PRet t o)
+       else PRet (RBytes []) o) /\
+    (forall l, gen_request___read o l
+      = PCall (attr o "_Request__file") "read" [l] [] o (fun t => PRet t o)).
+Proof.
+  intros c o length H1 H2 H3. split; [exact (gen_request_read_eq c o length H1 H2 H3)|].
+  split; [exact (gen_request_read_default c o H1 H2 H3)|].
+  exact (gen_request___read_eq o).
+Qed.
+Print Assumptions C09_generated_request_read_is_model.
+
+(* Request.data: over a BytesIO with any content and position, the whole
+   content, position back at 0; None without any call otherwise; in every
+   case the program is try: seek(0); read() finally: seek(0) *)
+Theorem C09_generated_request_data_is_model :
+  forall o,
+    ((forall i content pos,
+        attr o "_Request__file" = RObj "BytesIO" i ->
+        PyReqInput.run bio_call (gen_request_data o) (content, pos)
+        = (ORet (RBytes content) o, (content, 0))) /\
+     (isinstance (attr o "_Request__file") "BytesIO" = false ->
+      gen_request_data o = PRet RNone o)) /\
+    (isinstance (attr o "_Request__file") "BytesIO" = true ->
+     gen_request_data o
+     = PTry (PCall (attr o "_Request__file") "seek" [RInt 0] [] o (fun _ =>
+             PCall (attr o "_Request__file") "read" [] [] o (fun t =>
+             PRet t o)))
+            (fun o1 => PCall (attr o1 "_Request__file") "seek" [RInt 0] [] o1
+                             (fun _ => PRet RNone o1))).
+Proof.
+  intros o. split; [exact (gen_request_data_eq o)|exact (gen_request_data_shape o)].
+Qed.
+Print Assumptions C09_generated_request_data_is_model.
+
+(* Request.read_chunk = the (new, small) definition model_read_chunk:
+   int(file.readline(), base=16), then try: file.read(size) finally:
+   file.readline() *)
+Theorem C09_generated_request_read_chunk_is_model :
+  forall o, gen_request_read_chunk o = model_read_chunk o.
+Proof. exact gen_request_read_chunk_eq. Qed.
+Print Assumptions C09_generated_request_read_chunk_is_model.
